@@ -224,6 +224,10 @@ func (f *frame) nilCheck(st *bstate, v ssa.Value, lv *LV, pos token.Pos) {
 	case *ssa.Alloc, *ssa.FieldAddr, *ssa.IndexAddr, *ssa.Global, *ssa.FreeVar:
 		return
 	case *ssa.Parameter:
+		if f.top && f.contract != nil && f.contract.Nullable[p.Name()] {
+			f.oblige(st, "nil", f.text(pos, v.Name()), fmt.Sprintf("(not (= %s 0))", lv.ref), pos)
+			return
+		}
 		f.vc.note("assumed: pointer parameters and receivers are non-nil")
 		return
 	case *ssa.Phi:
